@@ -29,11 +29,19 @@ pre-processed text) are parametricity facts, kept as lemmas in
 Proofs.ParseEntryProofs and not counted as obligations.  Consumers of the
 source that sit behind parse_file in OTHER functions (parser/src/lib.rs
 parse_file: the FileLibrary entry, check_compiler_version, the include stack)
-are reached by the CLI runs only."""
+are reached by the CLI runs only.
+
+Fourth audit: (i) NEGATIVE runs — only `//` and `/* */` are comments: pseudo
+comments (scalars outside the language, comment openers of other languages made
+of legal tokens) placed outside comments and string literals must be reported
+at their offset, on the CLI and through the parse hook (foreign_file,
+e2e_foreign, parse_entry); (ii) the command-line options and the spelling of
+the input paths are drawn per generated case (draw_opts)."""
 import concurrent.futures
 import glob
 import json
 import os
+import re
 
 import common
 
@@ -530,18 +538,58 @@ def overwrite_comments(text, rng):
     return "".join(out)
 
 
-def run_cli(cli, workdir, name, text):
-    return run_cli_files(cli, workdir, name, {name + ".circom": text}, [name + ".circom"], flat=True)
+# --------------------------------------------------------------------------
+# (fourth audit) command-line options.  Every CLI run of C05 used `-l INFO -s <absolute path>`.  Now each generated
+# case draws its options with the seed and uses the SAME options for a file and its twins (metamorphic comparisons
+# are between runs with identical options): spelling of the level option and of the level, `-s` / `--sarif-file`,
+# `-v` / `--verbose` / neither, `-c` / `--curve` with the three curves (or no curve option), and the spelling of the
+# INPUT paths: absolute, or relative to the project directory (the tool is then started with that directory as its
+# working directory): `main.circom`, `./main.circom`, `sub_c05/../main.circom`.  The tool canonicalises every path it is
+# given (parser/src/include_logic.rs: fs::canonicalize in add_files / add_include), so the artifact uri and the location
+# line are compared with the real path of the file whatever spelling was used.
+# --------------------------------------------------------------------------
+LEVELS_ALL = [("-l", "INFO"), ("--level", "INFO"), ("-l", "info"), ("--level", "Info"), ("-l", "INFO"), ("-l", "WARNING")]
+# where the oracle needs error-level reports only (the unclosed-comment error, the invalid-token error: displayed at every level)
+LEVELS_ERRORS = LEVELS_ALL + [("--level", "warning"), ("-l", "ERROR"), ("--level", "error"), None]
+CURVES = [None, ("-c", "BN254"), ("--curve", "BLS12_381"), ("-c", "GOLDILOCKS"), ("--curve", "bn254"), ("-c", "bls12_381"),
+          ("--curve", "goldilocks")]
+PATH_STYLES = ["abs", "rel", "dot", "updown"]
+DEFAULT_OPTS = {"level": ("-l", "INFO"), "sarif": "-s", "verbose": None, "curve": None, "path": "abs"}
+OPTS_USED = {}            # option variant -> number of CLI runs (coverage)
+_OPTS_LOCK = __import__("threading").Lock()
+
+
+def draw_opts(rng, errors_only=False):
+    return {"level": rng.choice(LEVELS_ERRORS if errors_only else LEVELS_ALL), "sarif": rng.choice(["-s", "--sarif-file"]),
+            "verbose": rng.choice([None, None, "-v", "--verbose"]), "curve": rng.choice(CURVES), "path": rng.choice(PATH_STYLES)}
+
+
+def opts_key(o):
+    return "%s | %s | %s | %s | paths:%s" % (" ".join(o["level"]) if o["level"] else "(no level option)", o["sarif"], o["verbose"] or "(not verbose)",
+                                          " ".join(o["curve"]) if o["curve"] else "(no curve option)", o["path"])
+
+
+def spell(style, d, a):
+    """The INPUT path of file `a` of directory `d` as written on the command line."""
+    return {"abs": os.path.join(d, a), "rel": a, "dot": "./" + a, "updown": "sub_c05/../" + a}[style]
+
+
+def run_cli(cli, workdir, name, text, opts=None):
+    return run_cli_files(cli, workdir, name, {name + ".circom": text}, [name + ".circom"], flat=True, opts=opts)
 
 
 SARIF_DROPPED = {"unreadable": 0}     # SARIF files that could not be read: counted, and every such run is a reported problem
 
 
-def run_cli_files(cli, workdir, name, files, args, flat=False):
+def run_cli_files(cli, workdir, name, files, args, flat=False, opts=None):
     """Writes `files` (name -> text) into a directory of their own (so that
-    includes resolve), runs the CLI on the files named in `args` and returns the
-    exit status, the findings of the SARIF file (rule, level, message, regions
-    with the base name of the artifact), the standard output and the summary."""
+    includes resolve), runs the CLI on the files named in `args` (options and
+    spelling of the paths: `opts`) and returns the exit status, the findings of
+    the SARIF file (rule, level, message, regions with the base name of the
+    artifact), the standard output and the summary."""
+    opts = dict(DEFAULT_OPTS, **(opts or {}))
+    opts["level"] = tuple(opts["level"]) if opts["level"] else None
+    opts["curve"] = tuple(opts["curve"]) if opts["curve"] else None
     d = workdir if flat else os.path.join(workdir, name)
     os.makedirs(d, exist_ok=True)
     for fn, text in files.items():
@@ -552,8 +600,15 @@ def run_cli_files(cli, workdir, name, files, args, flat=False):
         os.remove(sarif)
     except OSError:
         pass
-    paths = [os.path.join(d, a) for a in args]
-    rc, out, err = common.sh([cli, "-l", "INFO", "-s", sarif] + paths, timeout=120)
+    style = opts["path"]
+    if style == "updown":
+        os.makedirs(os.path.join(d, "sub_c05"), exist_ok=True)
+    paths = [spell(style, d, a) for a in args]
+    argv = [cli] + (list(opts["level"]) if opts["level"] else []) + [opts["sarif"], sarif if style == "abs" else name + ".sarif"]
+    argv += ([opts["verbose"]] if opts["verbose"] else []) + (list(opts["curve"]) if opts["curve"] else [])
+    rc, out, err = common.sh(argv + paths, cwd=None if style == "abs" else d, timeout=120)
+    with _OPTS_LOCK:
+        OPTS_USED[opts_key(opts)] = OPTS_USED.get(opts_key(opts), 0) + 1
     findings = None
     try:
         doc = json.load(open(sarif))
@@ -567,18 +622,33 @@ def run_cli_files(cli, workdir, name, files, args, flat=False):
                     reg = (os.path.basename(l["physicalLocation"]["artifactLocation"]["uri"]),) + reg
                 regs.append(reg)
             # messages of un-located reports name the file (`The file `<path>` does not include a version
-            # pragma`): the scratch directory is not part of the finding
+            # pragma`): the scratch directory (and the spelling of the path) is not part of the finding
             msg = r["message"]["text"]
             for fn in files:
-                msg = msg.replace(os.path.join(d, fn), "<file>" if flat else "<%s>" % fn)
+                for sp in sorted({os.path.realpath(os.path.join(d, fn)), os.path.join(d, fn)} | ({spell(style, d, fn)} if style != "rel" else set()),
+                                 key=len, reverse=True):
+                    msg = msg.replace(sp, "<file>" if flat else "<%s>" % fn)
             findings.append((r.get("ruleId"), r.get("level"), msg, tuple(regs)))
         findings.sort(key=repr)
     except (OSError, ValueError, KeyError, IndexError):
         SARIF_DROPPED["unreadable"] += 1
         findings = None
     summary = [l for l in out.splitlines() if l.startswith("circomspect:") and ("issue" in l or "No issues" in l)]
+    uris = sorted({l["physicalLocation"]["artifactLocation"]["uri"] for r in (doc["runs"][0]["results"] if findings is not None else [])
+                   for l in r.get("locations", [])}) if findings is not None else []
     return {"rc": rc, "findings": findings, "summary": summary[-1] if summary else None,
-            "panic": "panicked" in err, "stdout": out, "dir": d}
+            "panic": "panicked" in err, "stdout": out, "dir": d, "opts": opts, "uris": uris, "argv": argv[1:] + paths,
+            "spelled": {a: spell(style, d, a) for a in files}}
+
+
+def shown_paths(res, path, fname):
+    """The ways the tool may name the file `fname`: its real path (what the tool does today: it canonicalises every path
+    it is given), the absolute path as composed, the spelling used on the command line.  Which of them is displayed is not
+    C05's business; that it is THAT FILE is."""
+    c = {os.path.realpath(path), path, os.path.join(res.get("dir") or os.path.dirname(path), fname)}
+    if res.get("spelled", {}).get(fname):
+        c.add(res["spelled"][fname])
+    return sorted(c, key=len, reverse=True)
 
 
 def proj(res, level):
@@ -597,6 +667,7 @@ def proj(res, level):
 def e2e_case(cli, workdir, rng_seed, idx):
     import random
     rng = random.Random(rng_seed)
+    opts = draw_opts(rng)          # one set of options for the file and all its twins
     lines = gen_template(rng, idx)
     base = render(lines)
     # (1) comments only after the last token of a line: no position moves
@@ -658,7 +729,7 @@ def e2e_case(cli, workdir, rng_seed, idx):
             "eol_blank": blank_file(f_eol, True), "eol_blank_bytes": blank_file(f_eol, False),
             "mid_blank": blank_file(f_mid, True), "mid_blank_bytes": blank_file(f_mid, False),
             "pay": f_pay, "pay_blank": blank_file(f_pay, True), "pay_base": f_pay_base}
-    res = {k: run_cli(cli, workdir, "t%d_%s" % (idx, k), v) for k, v in runs.items()}
+    res = {k: run_cli(cli, workdir, "t%d_%s" % (idx, k), v, opts) for k, v in runs.items()}
     problems = []
 
     def same(x, y, level, what):
@@ -689,6 +760,8 @@ def e2e_case(cli, workdir, rng_seed, idx):
             problems.append({"relation": "the tool ran to completion and wrote its SARIF file", "left": k, "left_text": runs[k],
                              "left_findings": proj(r, 2)})
     nfind = len(res["base"]["findings"] or [])
+    for p in problems:
+        p["opts"] = opts
     return {"idx": idx, "problems": problems, "nfindings": nfind, "runs": len(runs),
             "rules": sorted({f[0] for f in (res["base"]["findings"] or [])}),
             "own_line_pragma_only": idx % 3 == 0 and idx % 2 == 0, "own_line_payloads": len(pay_own),
@@ -709,9 +782,11 @@ def unclosed_report_problems(res, fname, path, line, col, text_for_report):
     that result, the location line `<path>:<line>:<col>`, a summary that counts
     an issue).  Nothing here depends on the wording of the message."""
     problems = []
+    paths = shown_paths(res, path, fname)   # (fourth audit: relative spellings on the command line)
 
     def bad(what):
-        problems.append(dict(text_for_report, relation=what, left_findings=proj_files(res, 2), stdout=res["stdout"][-1500:], rc=res["rc"]))
+        problems.append(dict(text_for_report, relation=what, left_findings=proj_files(res, 2), stdout=res["stdout"][-1500:], rc=res["rc"],
+                             opts=res.get("opts"), command_line=res.get("argv")))
     want = (line, col, line, col + 2)
     errors = [f for f in res["findings"] or [] if f[1] == "error"]
     located = [f for f in errors if any(tuple(r[-4:]) == want and (len(r) == 4 or r[0] == fname) for r in f[3])]
@@ -727,8 +802,11 @@ def unclosed_report_problems(res, fname, path, line, col, text_for_report):
     heads = [l for l in out.splitlines() if l.startswith("error")]
     if not heads or (msg is not None and not any(msg in l for l in heads)):
         bad("the unclosed comment is DISPLAYED: standard output has an `error` header carrying the message of the report")
-    if "%s:%d:%d" % (path, line, col) not in out:
-        bad("the unclosed comment is DISPLAYED at its opener: standard output has the location line %s:%d:%d" % (fname, line, col))
+    if not any("%s:%d:%d" % (q, line, col) in out for q in paths):
+        bad("the unclosed comment is DISPLAYED at its opener: standard output has the location line <path of %s>:%d:%d "
+            "(real path, or the path as spelled on the command line)" % (fname, line, col))
+    if located and res.get("uris") is not None and not any(u.endswith(q) for u in res["uris"] for q in paths):
+        bad("the SARIF artifact of the unclosed-comment result is %s (artifact uris: %s)" % (fname, res["uris"]))
     if res["summary"] is None or "No issues" in res["summary"] or "issue" not in res["summary"]:
         bad("the summary line counts the unclosed comment as an issue (never `No issues found.`)")
     return problems
@@ -756,7 +834,7 @@ def e2e_unclosed(cli, workdir, rng, idx):
     if idx % 7 == 3:
         text = LONG_BLOCK + "\n" + text
     name = "u%d" % idx
-    res = run_cli(cli, workdir, name, text)
+    res = run_cli(cli, workdir, name, text, draw_opts(rng, errors_only=True))
     line, col = where(text, text.rindex(tail))
     problems = unclosed_report_problems(res, name + ".circom", os.path.join(workdir, name + ".circom"), line, col,
                                         {"left": "unclosed", "left_text": text, "kind": "unclosed", "line": line, "col": col})
@@ -836,6 +914,7 @@ def e2e_files(cli, harness, workdir, rng_seed, idx):
     scen = idx % 4
     problems = []
     runs = 0
+    opts = draw_opts(rng, errors_only=scen in (0, 1))
     if scen in (0, 1):
         tail = rng.choice(UNCLOSED_TAILS)
         holder = "lib.circom" if scen == 1 or (idx // 4) % 2 == 0 else "main.circom"
@@ -848,7 +927,7 @@ def e2e_files(cli, harness, workdir, rng_seed, idx):
             other = "main.circom" if holder == "lib.circom" else "lib.circom"
             args = [other, holder] if (idx // 8) % 2 == 0 else [holder, other]
         name = "f%d" % idx
-        res = run_cli_files(cli, workdir, name, texts, args)
+        res = run_cli_files(cli, workdir, name, texts, args, opts=opts)
         runs += 1
         line, col = where(texts[holder], texts[holder].rindex(tail))
         rep = {"left": "project", "files": texts, "args": args, "kind": "unclosed-files", "holder": holder, "line": line, "col": col,
@@ -878,8 +957,8 @@ def e2e_files(cli, harness, workdir, rng_seed, idx):
         args = ["main.circom", "lib.circom"] if scen == 2 else ["main.circom"]
         if scen == 2 and (idx // 4) % 2:
             args.reverse()
-        ra = run_cli_files(cli, workdir, "f%d" % idx, texts, args)
-        rb = run_cli_files(cli, workdir, "f%d_blank" % idx, blank, args)
+        ra = run_cli_files(cli, workdir, "f%d" % idx, texts, args, opts=opts)
+        rb = run_cli_files(cli, workdir, "f%d_blank" % idx, blank, args, opts=opts)
         runs += 2
         if proj_files(ra, 2) != proj_files(rb, 2):
             problems.append({"relation": "project of two files (%s named on the command line): comments of both files replaced by blanks: "
@@ -894,6 +973,8 @@ def e2e_files(cli, harness, workdir, rng_seed, idx):
                 problems.append({"relation": "the tool ran to completion and wrote its SARIF file", "left": "project", "kind": "files-ran",
                                  "files": t, "args": args, "left_text": "".join("--- %s\n%s\n" % kv for kv in sorted(t.items())),
                                  "left_findings": proj_files(r, 2)})
+    for p in problems:
+        p.setdefault("opts", opts)
     return {"idx": idx, "scenario": scen, "problems": problems, "runs": runs,
             "included_only_not_displayed": bool(scen == 1 and cli_silent),
             "label_file_id": next((r["primary"][0]["file"] for r in (ans.get("reports", []) if scen in (0, 1) else [])
@@ -924,7 +1005,8 @@ def e2e_strings(cli, workdir, rng_seed, idx):
     inc = render(lines[:1]) + 'include "no/*%s*/such.circom";\n' % ws + render(lines[1:])
     runs["inc"] = inc
     runs["inc_blank"] = blank_file(inc, False)
-    res = {k: run_cli(cli, workdir, "s%d_%s" % (idx, k), v) for k, v in runs.items()}
+    opts = draw_opts(rng)
+    res = {k: run_cli(cli, workdir, "s%d_%s" % (idx, k), v, opts) for k, v in runs.items()}
     if proj(res["inc"], 2) != proj(res["inc_blank"], 2):
         problems.append({"relation": "a comment with white space (TAB, VT, FF) inside the string literal of an include path replaced by "
                                      "blanks: same findings (the path in the message included), same positions", "level": 2,
@@ -950,8 +1032,174 @@ def e2e_strings(cli, workdir, rng_seed, idx):
         if r["panic"] or r["findings"] is None:
             problems.append({"relation": "the tool ran to completion and wrote its SARIF file", "left": k, "left_text": runs[k],
                              "left_findings": proj(r, 2)})
+    for p in problems:
+        p.setdefault("opts", opts)
     return {"idx": idx, "problems": problems, "runs": len(runs), "line": sl,
             "parsed": not any(f[1] == "error" for f in res["str"]["findings"] or [])}
+
+
+# --------------------------------------------------------------------------
+# (fourth audit) nothing but `//` and `/* */` is a comment: scalars that are not part of the language, and pseudo
+# comment openers made of legal tokens, placed OUTSIDE comments and string literals
+# --------------------------------------------------------------------------
+# Scalars no token of parser/src/lang.lalrpop starts with and that are not white space (Unicode White_Space is skipped by
+# the generated lexer, `\s*`): ASCII punctuation outside the language (`$` is an identifier character but no identifier
+# starts with it unless a letter follows: it is always written with a blank after it), control characters, non-ASCII.
+FOREIGN_ASCII = ["#", "@", "`", "'", "$"]
+FOREIGN_OTHER = ["\u00a7", "\u00e9", "\u20ac", "\u03bb", "\u200b", "\ufeff", "\U0001F600", "\u00b6", "\u2014", "\u00ac", "\x01", "\x7f",
+                 "\x1b", "\u00b0", "\u2022", "\u00ab", "\u2116"]
+# comment openers of other languages that consist of LEGAL tokens of this one: they must be lexed as those tokens (and
+# are then a syntax error at the start of a statement / definition), never skipped
+# (not in the pool: openers that start with a prefix operator or an opening brace - `! c <-- a;` and `{ - c <-- a;` are
+# accepted by the GRAMMAR (the left-hand side is checked later), so the syntax error is not on that line)
+LEGAL_OPENERS = ["--", ";;", "<!--", "(*", "%", "%%", "\\\\", "::", "..", "-->", "**", "=begin", "??", "--[[", "<#", "|", "*>", "^^", "&&", "=="]
+WORD_OPENERS = ["REM", "rem", "dnl", "comment", "C"]        # an identifier followed by a statement is a syntax error on that line too
+# what the pseudo comment would hide, inside a template body / at top level
+# (the first four cannot follow a prefix operator: `! b === a;` would be a legal statement)
+HIDDEN_BODY = ["b <-- a * c;", "signal input h; b <-- h;", "c <-- a;", "var hidden = 1;", "assert(n > 0);", "b === a;"]
+HIDDEN_TOP = ["template Dup() {}", "include \"nonexistent.circom\";", "component main = X();", "pragma circom 9.9.9;",
+              "function hidden(m) { return m; }"]
+SENTINEL = "\x00F\x00"
+
+
+def foreign_opener(rng, idx):
+    """(opener text, kind): kind 'invalid' = starts with a scalar that is no part of the language (the error is AT that
+    scalar), 'legal' = legal tokens only (a syntax error on that line, at or after the opener).  Every ASCII scalar of the
+    pool and every legal opener is used in turn (idx), the other scalars are drawn with the seed."""
+    if idx % 3 != 2 or rng.random() < 0.3:
+        c = FOREIGN_ASCII[(idx // 3) % len(FOREIGN_ASCII)] if idx % 3 == 0 else rng.choice(FOREIGN_OTHER + FOREIGN_ASCII)
+        if c == "$":
+            return rng.choice(["$", "$ $", "$1"]), "invalid"
+        return rng.choice([c, c, c + c, c + "!", c + " " + c, c + "-", c + "[", c + c + c]), "invalid"
+    r = rng.random()
+    if r < 0.5:
+        return LEGAL_OPENERS[(idx // 3) % len(LEGAL_OPENERS)], "legal"
+    if r < 0.6:
+        return rng.choice(WORD_OPENERS), "legal"
+    # a random run of operator characters: the first one is a token no statement / definition starts with (no prefix
+    # operator, no opening bracket), `/` and `"` do not occur (no real comment, no string literal)
+    return rng.choice("%&*+.:;<=>?^|\\),]") + "".join(rng.choice("!%&*+-.:;<=>?^|~\\") for _ in range(rng.randrange(0, 3))), "legal"
+
+
+def foreign_file(rng, idx, comments=True):
+    """A generated template with ONE pseudo comment `X hidden-code` placed outside comments and string literals.  Returns
+    (text, character offset of X, X, kind, mode, text of the same file with X and the rest of its line replaced by blanks =
+    what a tool that took X for a line-comment opener would analyse)."""
+    lines = gen_template(rng, idx)
+    X, kind = foreign_opener(rng, idx)
+    body_start = next(i for i, l in enumerate(lines) if l[:1] == ["template"]) + 1
+    body_end = max(i for i, l in enumerate(lines) if l == ["}"])          # the closing brace of the template
+    simple = [i for i in range(body_start, body_end) if lines[i][-1] == ";" and "{" not in lines[i] and "}" not in lines[i]]
+    mode = rng.choice(["own-line", "own-line", "after-statement", "glued-after-statement", "after-comment", "mid-expression",
+                       "glued-mid-expression", "file-start", "file-end"])
+    if kind == "legal" and mode in ("mid-expression", "glued-mid-expression"):
+        mode = "own-line"              # legal tokens inside an expression can be an expression
+    hidden = rng.choice(HIDDEN_TOP if mode in ("file-start", "file-end") else HIDDEN_BODY[:4] if kind == "legal" else HIDDEN_BODY)
+    lines = [list(l) for l in lines]
+    glue_dollar = X.startswith("$")
+    if mode in ("own-line", "after-comment"):
+        at = rng.choice(simple) + 1 if simple else body_start
+        pre = rng.choice(["/* c */", "/**/", "/* // */ ", "/*\n*/"]) if mode == "after-comment" else None
+        lines.insert(at, ([pre] if pre else []) + [SENTINEL, hidden])
+    elif mode in ("after-statement", "glued-after-statement"):
+        at = rng.choice(simple) if simple else body_start
+        if mode == "glued-after-statement":
+            lines[at][-1] += SENTINEL
+            lines[at].append(hidden)
+        else:
+            lines[at] += [SENTINEL, hidden]
+    elif mode in ("mid-expression", "glued-mid-expression"):
+        cands = [(i, j) for i in simple for j in range(1, len(lines[i]) - 1)
+                 if lines[i][j - 1] in ("<--", "===", "<==", "=", "*", "+", "/") and (lines[i][j].isalnum())]
+        if not cands:
+            lines.insert(body_start, [SENTINEL, hidden])
+            mode = "own-line"
+        else:
+            i, j = rng.choice(cands)
+            if mode == "glued-mid-expression" and not glue_dollar:
+                lines[i][j] += SENTINEL
+            else:
+                lines[i].insert(j + 1, SENTINEL)
+                mode = "mid-expression"
+    elif mode == "file-start":
+        lines.insert(0, [SENTINEL, hidden])
+    else:
+        lines.append([SENTINEL, hidden])
+    eol = {}
+    if comments:
+        for i, l in enumerate(lines):
+            if not any(SENTINEL in t for t in l) and rng.random() < 0.3:
+                eol[i] = rng.choice(BLOCK_SHAPES + LINE_SHAPES)
+        # a comment AFTER the pseudo comment on the same line is still a comment (and hides nothing of the pseudo comment)
+        if rng.random() < 0.2:
+            eol[next(i for i, l in enumerate(lines) if any(SENTINEL in t for t in l))] = rng.choice(["// x", "/* y */", "/**/"])
+    text = render(lines, eol=eol)
+    off = text.index(SENTINEL)
+    assert text.count(SENTINEL) == 1
+    mask, _ = py_comment_mask(text)
+    assert not mask[off], "generator: the pseudo comment must stand outside every comment"
+    text = text.replace(SENTINEL, X)
+    end = text.find("\n", off)
+    end = len(text) if end < 0 else end
+    twin = text[:off] + " " * (end - off) + text[end:]
+    return text, off, X, kind, mode, twin
+
+
+def foreign_problems(res, rtwin, path, text, off, X, kind, rep):
+    """The unchanged language has no comment syntax but `//` and `/* */`: X is reported — an error-level result at the
+    line:column of X's first scalar when that scalar is no part of the language, on X's line at or after X when X consists
+    of legal tokens — the exit status is not 0, standard output shows the location, and the run differs from the run on
+    the file in which X and the rest of its line are blanks (nothing was skipped).  No wording of a message is read."""
+    problems = []
+    paths = shown_paths(res, path, os.path.basename(path))
+    line, col = where(text, off)
+
+    def bad(what):
+        problems.append(dict(rep, relation=what, left_findings=proj(res, 2), right_findings=proj(rtwin, 2) if rtwin else None,
+                             stdout=res["stdout"][-1200:], rc=res["rc"], opts=res.get("opts"), command_line=res.get("argv")))
+    errors = [f for f in res["findings"] or [] if f[1] == "error"]
+    starts = [tuple(r[-4:][:2]) for f in errors for r in f[3]]
+    shown = "%r" % X
+    if kind == "invalid":
+        if (line, col) not in starts:
+            bad("only `//` and `/* */` are comments: the scalar U+%04X (%s), which is no part of the language and stands outside every "
+                "comment and string literal, is reported as an error at its position %d:%d (error-level results start at: %s)"
+                % (ord(X[0]), shown, line, col, starts))
+        if not any("%s:%d:%d" % (q, line, col) in res["stdout"] for q in paths):
+            bad("only `//` and `/* */` are comments: the error at the scalar U+%04X (%s) is DISPLAYED: standard output has the location "
+                "line <path>:%d:%d" % (ord(X[0]), shown, line, col))
+    else:
+        if not any(l == line and c is not None and c >= col for l, c in starts):
+            bad("only `//` and `/* */` are comments: %s (legal tokens, a comment opener in other languages) at the start of a statement / "
+                "definition is lexed as tokens and reported as a syntax error on its line %d at or after column %d (error-level results "
+                "start at: %s)" % (shown, line, col, starts))
+        if not any("%s:%d:" % (q, line) in res["stdout"] for q in paths):
+            bad("only `//` and `/* */` are comments: the syntax error at %s is DISPLAYED on line %d" % (shown, line))
+    if res["rc"] == 0:
+        bad("only `//` and `/* */` are comments: a file with %s outside every comment is not accepted (exit status 0)" % shown)
+    if rtwin is not None and proj(res, 2) == proj(rtwin, 2):
+        bad("comments never hide code, and nothing but a comment does: the text after %s is analysed, the run is not the run on the "
+            "file with %s and the rest of its line replaced by blanks" % (shown, shown))
+    return problems
+
+
+def e2e_foreign(cli, workdir, rng_seed, idx):
+    import random
+    rng = random.Random(rng_seed)
+    text, off, X, kind, mode, twin = foreign_file(rng, idx)
+    opts = draw_opts(rng, errors_only=True)
+    name = "x%d" % idx
+    res = run_cli(cli, workdir, name, text, opts)
+    rtwin = run_cli(cli, workdir, name + "_twin", twin, opts)
+    rep = {"left": "pseudo-comment", "right": "rest of the line blanked", "left_text": text, "right_text": twin, "kind": "foreign",
+           "off": off, "opener": X, "opener_kind": kind, "mode": mode}
+    problems = foreign_problems(res, rtwin, os.path.join(workdir, name + ".circom"), text, off, X, kind, rep)
+    for k, r, t in (("pseudo-comment", res, text), ("twin", rtwin, twin)):
+        if r["panic"] or r["findings"] is None:
+            problems.append(dict(rep, relation="the tool ran to completion and wrote its SARIF file", left=k, left_text=t,
+                                 left_findings=proj(r, 2), opts=opts))
+    return {"idx": idx, "problems": problems, "runs": 2, "opener": X, "kind": kind, "mode": mode,
+            "twin_has_findings": bool(rtwin["findings"]), "twin_clean_of_errors": not any(f[1] == "error" for f in rtwin["findings"] or [])}
 
 
 # --------------------------------------------------------------------------
@@ -1025,7 +1273,7 @@ def report_message(answer):
     return f[5] if len(f) > 5 and f[0] == "error" and f[1] == "(report" else None
 
 
-def parse_entry(ctx, harness, model, n_templates, n_streams, fid=0):
+def parse_entry(ctx, harness, model, n_templates, n_streams, fid=0, n_foreign=0):
     """`parser::verif::parse_source` (= parser_logic::parse_file) on s, on s with
     its comments blanked (computed by the extracted reference side:
     LexSpec.blank_comments) and on s with its comment interiors overwritten by
@@ -1037,6 +1285,14 @@ def parse_entry(ctx, harness, model, n_templates, n_streams, fid=0):
     must be the unclosed-comment report on the range the reference lexer gives."""
     rng = ctx.rng
     texts0 = entry_sources(rng, n_templates, n_streams)
+    # (fourth audit) complete templates with one pseudo comment (a scalar that is no part of the language / a comment opener
+    # of another language made of legal tokens) outside comments and string literals
+    foreign = {}
+    for k in range(n_foreign):
+        t, off, X, kind, mode, _ = foreign_file(rng, k)
+        end = t.find("\n", off)
+        foreign[t] = (len(t[:off].encode("utf-8")), len(t[:(len(t) if end < 0 else end)].encode("utf-8")), X, kind, mode)
+        texts0.append(t)
     texts = [t for t in texts0 if not has_surrogate(t)]
     dropped_surrogates = len(texts0) - len(texts)
     over = [overwrite_comments(t, rng) for t in texts]
@@ -1092,6 +1348,25 @@ def parse_entry(ctx, harness, model, n_templates, n_streams, fid=0):
                                      "left": "source", "right": "variant", "left_text": t, "right_text": other,
                                      "left_findings": ast[i][:1500], "right_findings": oa[:1500]})
         msg = report_message(ast[i])
+        if t in foreign:
+            boff, beol, X, kind, mode = foreign[t]
+            stats["foreign"] = stats.get("foreign", 0) + 1
+            stats.setdefault("foreign_openers", {}).setdefault(kind, set()).add(X)
+            labels = [(int(a), int(b), int(c)) for a, b, c in re.findall(r"\(p (\d+) (\d+) (\d+) ", ast[i])]
+            if kind == "invalid":
+                ok = ast[i].startswith("error (report error ") and labels == [(boff, boff, fid)]
+                what = ("the scalar U+%04X (%r), which is no part of the language and stands outside every comment and string literal, is "
+                        "answered with an error report whose one primary label is AT its byte offset %d in file %d"
+                        % (ord(X[0]), X, boff, fid))
+            else:
+                ok = ast[i].startswith("error (report error ") and len(labels) == 1 and boff <= labels[0][0] <= beol and labels[0][2] == fid
+                what = ("%r (legal tokens, a comment opener in other languages) at the start of a statement / definition is lexed as tokens: "
+                        "an error report with one primary label on its line (bytes %d..%d) in file %d" % (X, boff, beol, fid))
+            if not ok:
+                problems_total += 1
+                if len(problems) < 20:
+                    problems.append({"relation": "parse entry point: only `//` and `/* */` are comments - " + what, "fid": fid, "kind": "entry-foreign",
+                                     "left": "source", "left_text": t, "left_findings": ast[i][:1500], "expect": [boff, beol, kind]})
         if spec[i].startswith("err"):
             f = spec[i].split()
             # one primary label, on the two bytes of the opener, in the file the hook was called for (third audit:
@@ -1120,6 +1395,7 @@ def parse_entry(ctx, harness, model, n_templates, n_streams, fid=0):
                          "fid": fid, "left": "source", "left_text": unclosed_messages[m], "left_findings": "message " + m})
     stats["unclosed_messages_seen"] = [bytes.fromhex(x[1:]).decode("utf-8", "replace") for x in sorted(unclosed_messages)]
     stats["problems_total"] = problems_total
+    stats["foreign_openers"] = {k: sorted(v) for k, v in stats.get("foreign_openers", {}).items()}
     stats["file_id"] = fid
     stats["max_source_bytes"] = max((len(t.encode("utf-8")) for t in texts), default=0)
     sample = next((a for a, t in zip(ast, texts) if a.startswith("ast") and py_comments(t)), ast[0] if ast else "")
@@ -1291,17 +1567,24 @@ def run(ctx, proofs):
     sseeds = [ctx.rng.randrange(1 << 30) for _ in range(2 * len(STRING_LINES) if quick else 6 * len(STRING_LINES))]
     with concurrent.futures.ThreadPoolExecutor(max_workers=common.NPROC) as ex:
         strings = list(ex.map(lambda iv: e2e_strings(cli, ctx.work, iv[1], iv[0]), enumerate(sseeds)))
+    # (fourth audit) pseudo comments: scalars outside the language / legal-token openers outside comments and strings
+    xseeds = [ctx.rng.randrange(1 << 30) for _ in range(240 if quick else 960)]
+    with concurrent.futures.ThreadPoolExecutor(max_workers=common.NPROC) as ex:
+        foreign = list(ex.map(lambda iv: e2e_foreign(cli, ctx.work, iv[1], iv[0]), enumerate(xseeds)))
     lap("e2e_single_file")
     # (third audit) projects of two files: unclosed comment in the second input / in an included file, comments in both files
     fseeds = [ctx.rng.randrange(1 << 30) for _ in range(32 if quick else 128)]
     with concurrent.futures.ThreadPoolExecutor(max_workers=common.NPROC) as ex:
         projects = list(ex.map(lambda iv: e2e_files(cli, harness, ctx.work, iv[1], iv[0]), enumerate(fseeds)))
     e2e_problems = [p for r in e2e + unclosed + strings + projects for p in r["problems"]]
+    # one problem per pseudo-comment case first (a case usually breaks several relations at once)
+    fp = [r["problems"] for r in foreign if r["problems"]]
+    e2e_problems = [ps[0] for ps in fp][:3] + e2e_problems + [p for ps in fp for p in ps[1:]] + [ps[0] for ps in fp][3:]
 
     lap("e2e_two_files")
     # parse entry point (AST level)
     entry_problems, entry_machinery, entry_stats, entry_sample = parse_entry(
-        ctx, harness, model, 1500 if quick else 8000, 3000 if quick else 20000, fid=fid)
+        ctx, harness, model, 1500 if quick else 8000, 3000 if quick else 20000, fid=fid, n_foreign=600 if quick else 3000)
     lap("parse_entry")
     with_findings = sum(1 for r in e2e if r["nfindings"] > 0)
     rules = sorted({x for r in e2e for x in r["rules"]})
@@ -1390,7 +1673,31 @@ def run(ctx, proofs):
         "spec_failures": len(failing),
         "differing_chunks": badchunks,
         "e2e_templates": n_e2e,
-        "e2e_cli_runs": sum(r["runs"] for r in e2e) + len(unclosed) + sum(r["runs"] for r in strings) + sum(r["runs"] for r in projects),
+        "e2e_cli_runs": sum(r["runs"] for r in e2e) + len(unclosed) + sum(r["runs"] for r in strings) + sum(r["runs"] for r in projects)
+                        + sum(r["runs"] for r in foreign),
+        "e2e_option_variants": {
+            "distinct_combinations_used": len(OPTS_USED), "cli_runs": sum(OPTS_USED.values()),
+            "level_option": sorted({k.split(" | ")[0] for k in OPTS_USED}), "sarif_option": sorted({k.split(" | ")[1] for k in OPTS_USED}),
+            "verbose": sorted({k.split(" | ")[2] for k in OPTS_USED}), "curve_option": sorted({k.split(" | ")[3] for k in OPTS_USED}),
+            "input_path_spelling": {st: sum(n for k, n in OPTS_USED.items() if k.endswith("paths:" + st)) for st in PATH_STYLES},
+            "rule": "one set of options per generated case, the same for a file and all its twins; levels above INFO only where the oracle "
+                    "reads error-level results only (unclosed comment, pseudo comments); relative spellings are run with the project "
+                    "directory as working directory; artifact uri and location line are compared with the real path (the tool "
+                    "canonicalises what it is given)"},
+        "e2e_pseudo_comments": {
+            "cases": len(foreign), "cli_runs": sum(r["runs"] for r in foreign),
+            "invalid_scalar_openers": sorted({r["opener"] for r in foreign if r["kind"] == "invalid"}),
+            "legal_token_openers": sorted({r["opener"] for r in foreign if r["kind"] == "legal"}),
+            "by_mode": {m: sum(1 for r in foreign if r["mode"] == m) for m in sorted({r["mode"] for r in foreign})},
+            "twins_that_produce_findings_without_error": sum(1 for r in foreign if r["twin_has_findings"] and r["twin_clean_of_errors"]),
+            "pools": {"ascii_outside_the_language": FOREIGN_ASCII, "other_scalars": ["U+%04X" % ord(c) for c in FOREIGN_OTHER],
+                      "legal_token_openers": LEGAL_OPENERS, "word_openers": WORD_OPENERS,
+                      "random_legal_openers": "first character one of % & * + . : ; < = > ? ^ | \\ ) , ] then up to two of ! % & * + - . : ; < = > ? ^ | ~ \\",
+                      "hidden_code": HIDDEN_BODY + HIDDEN_TOP},
+            "asserts": "error-level SARIF result AT the line:column of the scalar (invalid scalars) / on the line at or after the opener "
+                       "(legal tokens); exit status != 0; location line on standard output; the run differs from the run on the file "
+                       "with the opener and the rest of its line replaced by blanks; in process (parse entry): one primary label at the "
+                       "byte offset / on the line, in the file the hook was called for"},
         "e2e_two_file_projects": {"projects": len(projects), "by_scenario": {str(k): sum(1 for r in projects if r["scenario"] == k) for k in range(4)},
                                   "scenarios": "0 unclosed comment in one of two files named on the command line (label must name THAT file: "
                                                "SARIF artifact, stdout location line; exit != 0) and in process on parse_files; "
@@ -1448,6 +1755,10 @@ def run(ctx, proofs):
             "is the byte offset only; level, file, range, exit status and standard output are asserted at run time (hook with a "
             "non-zero file id, CLI runs with one and two files, parse_files in process for an included-only file)",
             "NOT COVERED by any theorem: parser/src/lib.rs (version check, include stack, FileLibrary) - CLI runs only",
+            "NOT PROVED (fourth audit): the generated lexer has no comment syntax of its own, i.e. only `//` and `/* */` hide text - "
+            "observed with pseudo comments (scalars outside the language and legal-token openers drawn from pools, "
+            "coverage.e2e_pseudo_comments and parse_entry.foreign); an opener outside the pools can escape",
+            "ALL 21 obligations are statements about the stripper `preprocess`; none is about the display, the lexer or the command line",
         ],
     })
     ctx.assumptions += [
@@ -1469,6 +1780,13 @@ def run(ctx, proofs):
         "what sits behind parser_logic::parse_file in other functions (parser/src/lib.rs parse_file: version check, include stack, "
         "FileLibrary entry) is covered by the CLI runs only; parse_string / parse_definition are not observed",
         "string literals are not special for the comment lexer (modelling decision recorded in DESIGN §4 C05; matches the code)",
+        "the oracle for pseudo comments is the unchanged LANGUAGE: a scalar no token starts with (and that is not Unicode white space) is "
+        "an error at its offset; a token that cannot start a statement / definition is a syntax error on its line - read off "
+        "parser/src/lang.lalrpop by hand (pools FOREIGN_ASCII, FOREIGN_OTHER, LEGAL_OPENERS in lib/props/C05.py), not regenerated from it: "
+        "a grammar change that makes one of them legal shows up as a VIOLATION with that input and needs the pool corrected",
+        "INCLUDED-ONLY files: an unclosed comment there is checked in process on parser::parse_files only; the CLI displays nothing and "
+        "exits 0 (coordinator's decision) - counted in coverage.e2e_two_file_projects as an observation",
+        "a consumer of the RAW source text inside an analysis pass (a message quoting `underlying_str`) is not aimed at by any generator",
     ]
 
 
@@ -1508,21 +1826,46 @@ def replay(ctx, rep):
             print("  lexer image:", sb[:300], "(same)" if sa == sb else "(DIFFERENT: not an instance of the relation)")
             print("  answer     :", b[:1500])
             return 0 if a == b else 1
+        if p.get("kind") == "entry-foreign":
+            boff, beol, kind = p["expect"]
+            labels = [(int(x), int(y), int(z)) for x, y, z in re.findall(r"\(p (\d+) (\d+) (\d+) ", a)]
+            print("  expected   : an error report with one primary label %s in file %d; labels: %s"
+                  % ("at byte %d" % boff if kind == "invalid" else "within bytes %d..%d" % (boff, beol), fid, labels))
+            if kind == "invalid":
+                return 0 if a.startswith("error (report error ") and labels == [(boff, boff, fid)] else 1
+            return 0 if a.startswith("error (report error ") and len(labels) == 1 and boff <= labels[0][0] <= beol and labels[0][2] == fid else 1
         if "every source that ends inside a block comment gets the same report" in p["relation"]:
             print("(a relation between several sources of the run; this source carries one of the messages)")
             return 1
         f = sa.split()
         ok = sa.startswith("err") and a.startswith("error (report error ") and ("(p %s %s %d " % (f[1], f[2], fid)) in a and a.count("(p ") == 1
         return 0 if ok else 1
+    if rep.get("e2e") and rep["e2e"].get("kind") == "foreign":
+        cli = common.build_cli()
+        p = rep["e2e"]
+        print("relation:", p["relation"])
+        res = run_cli(cli, ctx.work, "replay_foreign", p["left_text"], p.get("opts"))
+        rtwin = run_cli(cli, ctx.work, "replay_foreign_twin", p["right_text"], p.get("opts"))
+        print("command line:", " ".join(res["argv"]))
+        print("pseudo comment %r at %d:%d (%s)" % ((p["opener"],) + where(p["left_text"], p["off"]) + (p["mode"],)))
+        print("exit status:", res["rc"])
+        print("findings   :", proj(res, 2)[0])
+        print("findings of the file with the rest of that line blanked:", proj(rtwin, 2)[0])
+        print("stdout     :", res["stdout"][-800:])
+        ps = foreign_problems(res, rtwin, os.path.join(ctx.work, "replay_foreign.circom"), p["left_text"], p["off"], p["opener"],
+                              p["opener_kind"], {})
+        for q in ps:
+            print("NOT MET:", q["relation"])
+        return 1 if ps else 0
     if rep.get("e2e") and rep["e2e"].get("kind") in ("unclosed", "unclosed-files"):
         cli = common.build_cli()
         p = rep["e2e"]
         print("relation:", p["relation"])
         if p["kind"] == "unclosed":
-            res = run_cli(cli, ctx.work, "replay_unclosed", p["left_text"])
+            res = run_cli(cli, ctx.work, "replay_unclosed", p["left_text"], p.get("opts"))
             fname, path = "replay_unclosed.circom", os.path.join(ctx.work, "replay_unclosed.circom")
         else:
-            res = run_cli_files(cli, ctx.work, "replay_project", p["files"], p["args"])
+            res = run_cli_files(cli, ctx.work, "replay_project", p["files"], p["args"], opts=p.get("opts"))
             fname, path = p["holder"], os.path.join(res["dir"], p["holder"])
             print("command line:", " ".join(p["args"]), "(unclosed comment in %s at %d:%d)" % (p["holder"], p["line"], p["col"]))
         print("exit status:", res["rc"])
@@ -1550,21 +1893,22 @@ def replay(ctx, rep):
         cli = common.build_cli()
         p = rep["e2e"]
         print("relation:", p["relation"])
-        a = run_cli_files(cli, ctx.work, "replay_project", p["files"], p["args"])
+        a = run_cli_files(cli, ctx.work, "replay_project", p["files"], p["args"], opts=p.get("opts"))
         print("left  :", proj_files(a, 2))
         if "right_files" in p:
-            b = run_cli_files(cli, ctx.work, "replay_project_right", p["right_files"], p["args"])
+            b = run_cli_files(cli, ctx.work, "replay_project_right", p["right_files"], p["args"], opts=p.get("opts"))
             print("right :", proj_files(b, 2))
             return 0 if proj_files(a, 2) == proj_files(b, 2) else 1
         return 1 if a["panic"] or a["findings"] is None else 0
     if rep.get("e2e"):
         cli = common.build_cli()
         p = rep["e2e"]
-        a = run_cli(cli, ctx.work, "replay_left", p["left_text"])
+        a = run_cli(cli, ctx.work, "replay_left", p["left_text"], p.get("opts"))
         print("relation:", p["relation"])
+        print("options :", " ".join(a["argv"]))
         print("left  (%s): %s" % (p["left"], proj(a, 2)))
         if "right_text" in p:
-            b = run_cli(cli, ctx.work, "replay_right", p["right_text"])
+            b = run_cli(cli, ctx.work, "replay_right", p["right_text"], p.get("opts"))
             print("right (%s): %s" % (p["right"], proj(b, 2)))
             lvl = p["level"] if "level" in p else 0 if "between tokens" in p["relation"] else 1 if "same lines" in p["relation"] else 2
             return 0 if proj(a, lvl) == proj(b, lvl) else 1
